@@ -99,7 +99,7 @@ def run(chk):
     chk.prove(models=["Model/Machine"])
     rng = chk.rng
     exprs = []
-    n = 200 if chk.tier == "quick" else 1500
+    n = 200 if chk.tier == "quick" else 12000
     for i in range(n):
         d = session.scratch_dir()
         try:
@@ -189,7 +189,7 @@ def run(chk):
 
 def setup_only_part(chk):
     rng = chk.rng
-    n = 12 if chk.tier == "quick" else 100
+    n = 12 if chk.tier == "quick" else 600
     for i in range(n):
         d = session.scratch_dir()
         try:
@@ -213,7 +213,7 @@ def setup_only_part(chk):
 def parallel_part(chk):
     """worker threads of the parallel scheduler that need the same build at the same time"""
     rng = chk.rng
-    n = 6 if chk.tier == "quick" else 40
+    n = 6 if chk.tier == "quick" else 150
     for i in range(n):
         d = session.scratch_dir()
         try:
